@@ -212,3 +212,32 @@ Theorem int_float_int_exact_partial :
                  (cvt_int_float f32 f64 narrow of_int (ival_of src indir x) KFloat32) dst) = go_conv dst x).
 Proof. exact int_float_int_both. Qed.
 Print Assumptions int_float_int_exact_partial.
+
+(* ---------- FieldByName over embedded structs ---------- *)
+Local Open Scope N_scope.
+
+(* The breadth-first search of FieldByNameFunc (work queue per depth level, count / nextCount
+   multiplicities handed down to embedded structs, annihilation at equal depth, visited set) returns
+   what the Go rule over PATHS prescribes: the field at the shallowest depth, found iff exactly
+   one path of embedded fields reaches a field of that name at that depth.  Swept completely over
+   every embedding graph of 3 struct types (up to 2 embedded fields each, over all three types,
+   X absent / first / last) and of 4 struct types (embedded fields over types 1..3, X absent / last),
+   for the name X and the name of every embedded field; repeated edges stand for diamonds, edges
+   back to a type for pointer cycles. *)
+Theorem field_by_name_eq_go_bounded :
+  (forall g, List.length g = 3%nat -> Forall (fun o => In o opts_A) g ->
+     forall nm, In nm (search_names 3) -> field_by_name true g 0 nm = go_field_by_name_func g 0 (N.eqb nm)) /\
+  (forall g, List.length g = 4%nat -> Forall (fun o => In o opts_B) g ->
+     forall nm, In nm (search_names 4) -> field_by_name true g 0 nm = go_field_by_name_func g 0 (N.eqb nm)).
+Proof. exact (conj fbn_domain_A fbn_domain_B). Qed.
+Print Assumptions field_by_name_eq_go_bounded.
+
+(* the multiplicity of a doubly reachable struct must be handed down: without it (prop = false) a
+   field two levels below the join of a diamond is reported although two paths reach it *)
+Theorem field_by_name_no_propagation_refuted :
+  In [emb_field 1; emb_field 1] opts_A /\
+  field_by_name false g_diamond_below 0 1 = Some [0; 0; 0] /\
+  field_by_name true g_diamond_below 0 1 = None /\
+  go_field_by_name_func g_diamond_below 0 (N.eqb 1) = None.
+Proof. exact fbn_no_propagation_wrong. Qed.
+Print Assumptions field_by_name_no_propagation_refuted.
